@@ -400,17 +400,27 @@ Proof.
     assert (Hf := map_filter_nil _ _ _ H n Hn). apply negb_false_iff in Hf. apply mem_In. exact Hf.
 Qed.
 
-Lemma result_has_resolves m n : result_has (m_result m) n = true -> resolves (RResult m n).
+(* result_has is exactly "the name resolves in an object result" *)
+Lemma result_has_iff r attrs n : r_shape r = SObj attrs -> (result_has r n = true <-> obj_result_resolves r attrs n).
 Proof.
-  unfold result_has. simpl. destruct (r_shape (m_result m)) as [|attrs| |]; try discriminate.
-  destruct (r_views (m_result m)) as [vs|].
-  - destruct (r_fixed (m_result m)) as [v|].
-    + destruct (lookup_view vs v) as [w|] eqn:El; [|discriminate]. intro Hm.
-      unfold lookup_view in El. apply find_some_in in El. destruct El as [Hi He]. apply Nat.eqb_eq in He.
-      exists w. repeat split; try assumption. apply mem_In. exact Hm.
-    + intro H. apply andb_true_iff in H. destruct H as [Hall Hm]. split; [apply mem_In; exact Hm|].
-      intros w Hw. rewrite forallb_forall in Hall. apply mem_In. exact (Hall w Hw).
-  - intro Hm. apply mem_In. exact Hm.
+  intro Hs. unfold result_has, obj_result_resolves. rewrite Hs.
+  destruct (r_views r) as [vs|].
+  - destruct (r_fixed r) as [v|].
+    + destruct (lookup_view vs v) as [w|] eqn:El.
+      * split; [intro Hm; exists w; split; [reflexivity|apply mem_In; exact Hm]|].
+        intros [w' [Hw Hin]]. inversion Hw; subst w'. apply mem_In. exact Hin.
+      * split; [discriminate|]. intros [w' [Hw _]]. discriminate.
+    + rewrite andb_true_iff, forallb_forall. split.
+      * intros [Hall Hm]. split; [apply mem_In; exact Hm|]. intros w Hw. apply mem_In. exact (Hall w Hw).
+      * intros [Hm Hall]. split; [|apply mem_In; exact Hm]. intros w Hw. apply mem_In. exact (Hall w Hw).
+  - apply mem_In.
+Qed.
+
+Lemma result_has_resolves m n : result_has (m_result m) n = true -> resolves (RResult m n) /\ resolves (RResultBody m n).
+Proof.
+  intro H. simpl. destruct (r_shape (m_result m)) as [|attrs| |] eqn:Es;
+    try (unfold result_has in H; rewrite Es in H; discriminate).
+  split; exact (proj1 (result_has_iff _ attrs n Es) H).
 Qed.
 
 Lemma missing_resolves m ns : missing (m_payload m) ns = [] -> forall n, In n ns -> resolves (RPayload m n).
@@ -423,22 +433,23 @@ Proof.
 Qed.
 
 Lemma response_ok m rs : validate_response m rs = [] ->
-  forall n, In n (rs_headers rs ++ rs_cookies rs ++ body_names (rs_body rs)) -> resolves (RResult m n).
+  (forall n, In n (rs_headers rs ++ rs_cookies rs) -> resolves (RResult m n)) /\
+  (forall n, In n (body_names (rs_body rs)) -> resolves (RResultBody m n)).
 Proof.
-  unfold validate_response. intros H n Hin.
-  apply app_nil_both in H. destruct H as [Hh H]. apply app_nil_both in H. destruct H as [Hc Hb].
-  apply in_app_or in Hin. destruct Hin as [Hin|Hin]; [|apply in_app_or in Hin; destruct Hin as [Hin|Hin]].
-  - destruct (rs_headers rs) as [|h0 hs] eqn:Eh; [contradiction|].
-    destruct (r_shape (m_result m)) as [|attrs| |] eqn:Es; try discriminate.
-    + apply result_has_resolves. assert (Hf := map_filter_nil _ _ _ Hh n Hin). apply negb_false_iff in Hf. exact Hf.
-    + simpl. rewrite Es. exact I.
-    + simpl. rewrite Es. exact I.
-  - destruct (rs_cookies rs) as [|c0 cs] eqn:Ec; [contradiction|].
-    destruct (r_shape (m_result m)) as [|attrs| |] eqn:Es; try discriminate.
-    + apply result_has_resolves. assert (Hf := map_filter_nil _ _ _ Hc n Hin). apply negb_false_iff in Hf. exact Hf.
-    + simpl. rewrite Es. exact I.
-    + simpl. rewrite Es. exact I.
-  - apply result_has_resolves. assert (Hf := map_filter_nil _ _ _ Hb n Hin). apply negb_false_iff in Hf. exact Hf.
+  unfold validate_response. intros H.
+  apply app_nil_both in H. destruct H as [Hh H]. apply app_nil_both in H. destruct H as [Hc Hb]. split.
+  - intros n Hin. apply in_app_or in Hin. destruct Hin as [Hin|Hin].
+    + destruct (rs_headers rs) as [|h0 hs] eqn:Eh; [contradiction|].
+      destruct (r_shape (m_result m)) as [|attrs| |] eqn:Es; try discriminate.
+      * apply result_has_resolves. assert (Hf := map_filter_nil _ _ _ Hh n Hin). apply negb_false_iff in Hf. exact Hf.
+      * simpl. rewrite Es. exact I.
+      * simpl. rewrite Es. exact I.
+    + destruct (rs_cookies rs) as [|c0 cs] eqn:Ec; [contradiction|].
+      destruct (r_shape (m_result m)) as [|attrs| |] eqn:Es; try discriminate.
+      * apply result_has_resolves. assert (Hf := map_filter_nil _ _ _ Hc n Hin). apply negb_false_iff in Hf. exact Hf.
+      * simpl. rewrite Es. exact I.
+      * simpl. rewrite Es. exact I.
+  - intros n Hin. apply result_has_resolves. assert (Hf := map_filter_nil _ _ _ Hb n Hin). apply negb_false_iff in Hf. exact Hf.
 Qed.
 
 Lemma tags_ok m h : validate_tags m h = [] -> forall t, In t (tags_of h) -> resolves (RTag m t).
@@ -481,8 +492,10 @@ Proof.
   - apply in_flat_map in Hin. destruct Hin as [rs [Hrs Hin]].
     assert (Hr := flat_map_nil _ _ Hresp rs Hrs).
     apply in_app_or in Hin. destruct Hin as [Hin|Hin].
-    + apply in_map_iff in Hin. destruct Hin as [n [<- Hn]]. exact (response_ok m rs Hr n Hn).
-    + destruct (rs_tag rs) as [t|] eqn:Etag; [|contradiction]. destruct Hin as [<-|[]].
+    + apply in_map_iff in Hin. destruct Hin as [n [<- Hn]]. exact (proj1 (response_ok m rs Hr) n Hn).
+    + apply in_app_or in Hin. destruct Hin as [Hin|Hin];
+        [apply in_map_iff in Hin; destruct Hin as [n [<- Hn]]; exact (proj2 (response_ok m rs Hr) n Hn)|].
+      destruct (rs_tag rs) as [t|] eqn:Etag; [|contradiction]. destruct Hin as [<-|[]].
       apply (tags_ok m h Htags). unfold tags_of. apply in_flat_map. exists rs. split; [exact Hrs|].
       rewrite Etag. left. reflexivity.
   - apply in_flat_map in Hin. destruct Hin as [er [Her Hin]].
@@ -824,4 +837,208 @@ Proof.
   unfold validation_errors in Hv. apply app_nil_both in Hv. destruct Hv as [_ Hv]. apply app_nil_both in Hv. destruct Hv as [_ Hv].
   apply app_nil_both in Hv. destruct Hv as [_ Hva].
   exact (attr_ok _ n a v (flat_map_nil _ _ Hva n (reachable_complete _ _ n Hr)) Ha Hview).
+Qed.
+
+(* ---------------------------------------------------------------------- *)
+(* Part 4: errors name the offending expression                           *)
+(* ---------------------------------------------------------------------- *)
+
+Local Open Scope string_scope.
+
+Lemma append_nonempty_l a b : a <> "" -> a ++ b <> "".
+Proof. destruct a; simpl; [congruence|discriminate]. Qed.
+
+Lemma svc_name_nonempty n : svc_name n <> "".
+Proof. unfold svc_name. destruct (is_empty n); discriminate. Qed.
+
+(* every expression but the top level has a name, whatever the names given in the design
+   (empty ones included) and however deep the nesting *)
+Lemma eval_name_nonempty p : p <> PTop -> eval_name p <> "".
+Proof.
+  destruct p as [|n| | |n|h srv|n|svc m|svc m|svc m|svc file|[q|]|[q|]|verb path ep| |n|n|url|summary|ty|[n|]|n];
+    intro H; try congruence; simpl; try discriminate;
+    try (apply append_nonempty_l; apply svc_name_nonempty).
+  - apply svc_name_nonempty.
+  - destruct ty; simpl; discriminate.
+Qed.
+
+Lemma report_suffix_in p : p <> PTop -> report_suffix p = " in " ++ eval_name p.
+Proof.
+  intro H. assert (Hn := eval_name_nonempty p H). unfold report_suffix.
+  destruct p; try congruence; destruct (eval_name _) eqn:E; simpl; try reflexivity; congruence.
+Qed.
+
+Lemma incompatible_msg_located f p : p <> PTop ->
+  incompatible_msg f p = "invalid use of " ++ f ++ " in " ++ eval_name p /\ eval_name p <> "".
+Proof.
+  intro H. split; [|exact (eval_name_nonempty p H)].
+  unfold incompatible_msg. rewrite (report_suffix_in p H). reflexivity.
+Qed.
+
+Lemma located_call_misplaced e c : f_kind e = KStrict -> allowed e c = false ->
+  located_call c e = [incompatible_msg (f_name e) (ctx_path c)].
+Proof. intros Hk Ha. unfold located_call. rewrite (misplaced_reports e c Hk Ha). reflexivity. Qed.
+
+Lemma ctx_path_top c : ctx_path c = PTop -> c = CTop.
+Proof. destruct c; simpl; intro H; try discriminate; reflexivity. Qed.
+
+Lemma sappend_assoc (a b c : string) : (a ++ b) ++ c = a ++ (b ++ c).
+Proof. induction a as [|x a IH]; simpl; [reflexivity|rewrite IH; reflexivity]. Qed.
+
+(* a nested expression's name ends with the name of the expression it belongs to *)
+Lemma nested_name_ends_with_parent q :
+  (exists pre, eval_name (PHTTPResponse (Some q)) = pre ++ eval_name q) /\
+  (exists pre, eval_name (PGRPCResponse (Some q)) = pre ++ eval_name q) /\
+  (forall verb path, exists pre, eval_name (PRoute verb path q) = pre ++ eval_name q).
+Proof.
+  split; [exists "HTTP response of "; reflexivity|]. split; [exists "gRPC response of "; reflexivity|].
+  intros verb path. exists ("route " ++ verb ++ " " ++ quote path ++ " of ").
+  change (eval_name (PRoute verb path q)) with ("route " ++ verb ++ " " ++ quote path ++ " of " ++ eval_name q).
+  repeat rewrite sappend_assoc. reflexivity.
+Qed.
+
+(* ---------------------------------------------------------------------- *)
+(* Part 1, converse: every transport error is about a reference that dangles *)
+(* ---------------------------------------------------------------------- *)
+
+Local Close Scope string_scope.
+
+Lemma missing_dangling m ns n : In n (missing (m_payload m) ns) -> In n ns /\ ~ resolves (RPayload m n).
+Proof.
+  unfold missing. simpl. destruct (m_payload m) as [|attrs| |]; simpl; intro H; try contradiction;
+    apply filter_In in H; destruct H as [Hin Hf]; (split; [exact Hin|]); try tauto.
+  apply negb_true_iff in Hf. intro Hr. apply mem_In in Hr. congruence.
+Qed.
+
+Lemma find_err_none ls n : find_err ls n = None -> ~ exists e, In e (List.concat ls) /\ e_name e = n.
+Proof.
+  unfold find_err. intros H [e [Hin He]]. assert (Hf := find_none _ _ H e Hin). simpl in Hf.
+  rewrite He, Nat.eqb_refl in Hf. discriminate.
+Qed.
+
+Lemma eresponse_dangling ls er e : In e (validate_eresponse ls er) ->
+  exists r, In r (RError ls (er_name er) :: map (RErrAttr ls (er_name er)) (er_headers er)) /\ ~ resolves r.
+Proof.
+  unfold validate_eresponse. destruct (find_err ls (er_name er)) as [ed|] eqn:Ef.
+  - destruct (e_shape ed) as [|attrs| |] eqn:Es; try (intros []).
+    intro H. apply in_map_iff in H. destruct H as [n [_ Hn]]. apply filter_In in Hn. destruct Hn as [Hn Hf].
+    exists (RErrAttr ls (er_name er) n). split; [right; apply in_map; exact Hn|].
+    simpl. intro Hr. specialize (Hr ed Ef). rewrite Es in Hr. apply mem_In in Hr. apply negb_true_iff in Hf. congruence.
+  - intros _. exists (RError ls (er_name er)). split; [left; reflexivity|]. exact (find_err_none ls _ Ef).
+Qed.
+
+Lemma not_result_has m n : result_has (m_result m) n = false ->
+  ~ resolves (RResultBody m n) /\ (forall attrs, r_shape (m_result m) = SObj attrs -> ~ resolves (RResult m n)).
+Proof.
+  intro H. split.
+  - simpl. destruct (r_shape (m_result m)) as [|attrs| |] eqn:Es; try tauto.
+    intro Hr. apply (result_has_iff _ attrs n Es) in Hr. congruence.
+  - intros attrs Es. simpl. rewrite Es. intro Hr. apply (result_has_iff _ attrs n Es) in Hr. congruence.
+Qed.
+
+Lemma response_dangling m rs e : In e (validate_response m rs) ->
+  exists r, In r (map (RResult m) (rs_headers rs ++ rs_cookies rs) ++ map (RResultBody m) (body_names (rs_body rs))) /\ ~ resolves r.
+Proof.
+  unfold validate_response. intro H. apply in_app_or in H. destruct H as [H|H]; [|apply in_app_or in H; destruct H as [H|H]].
+  - destruct (rs_headers rs) as [|h0 hs] eqn:Eh; [contradiction|].
+    destruct (r_shape (m_result m)) as [|attrs| |] eqn:Es; try contradiction.
+    + exists (RResult m h0). split; [apply in_or_app; left; apply in_map; apply in_or_app; left; left; reflexivity|].
+      simpl. rewrite Es. tauto.
+    + apply in_map_iff in H. destruct H as [n [_ Hn]]. apply filter_In in Hn. destruct Hn as [Hn Hf].
+      exists (RResult m n). split; [apply in_or_app; left; apply in_map; apply in_or_app; left; exact Hn|].
+      apply negb_true_iff in Hf. exact (proj2 (not_result_has m n Hf) attrs Es).
+  - destruct (rs_cookies rs) as [|c0 cs] eqn:Ec; [contradiction|].
+    destruct (r_shape (m_result m)) as [|attrs| |] eqn:Es; try contradiction.
+    + exists (RResult m c0). split; [apply in_or_app; left; apply in_map; apply in_or_app; right; left; reflexivity|].
+      simpl. rewrite Es. tauto.
+    + apply in_map_iff in H. destruct H as [n [_ Hn]]. apply filter_In in Hn. destruct Hn as [Hn Hf].
+      exists (RResult m n). split; [apply in_or_app; left; apply in_map; apply in_or_app; right; exact Hn|].
+      apply negb_true_iff in Hf. exact (proj2 (not_result_has m n Hf) attrs Es).
+  - apply in_map_iff in H. destruct H as [n [_ Hn]]. apply filter_In in Hn. destruct Hn as [Hn Hf].
+    exists (RResultBody m n). split; [apply in_or_app; right; apply in_map; exact Hn|].
+    apply negb_true_iff in Hf. exact (proj1 (not_result_has m n Hf)).
+Qed.
+
+Lemma tags_dangling m h e : In e (validate_tags m h) -> exists t, In t (tags_of h) /\ ~ resolves (RTag m t).
+Proof.
+  unfold validate_tags. destruct (tags_of h) as [|t0 ts] eqn:Et; [intros []|].
+  assert (H0 : In t0 (t0 :: ts)) by (left; reflexivity).
+  remember (t0 :: ts) as tl eqn:Etl. clear Etl.
+  destruct (r_shape (m_result m)) as [|attrs| |] eqn:Es; intro H; simpl; rewrite Es.
+  - exists t0. split; [exact H0|tauto].
+  - apply in_map_iff in H. destruct H as [t [_ Ht]]. apply filter_In in Ht. destruct Ht as [Ht Hf].
+    exists t. split; [exact Ht|]. intro Hr. apply mem_In in Hr. apply negb_true_iff in Hf. congruence.
+  - exists t0. split; [exact H0|tauto].
+  - exists t0. split; [exact H0|tauto].
+Qed.
+
+Theorem http_errors_dangling d s m h e : In e (validate_http d s m h) ->
+  exists r, In r (http_refs d s m h) /\ ~ resolves r.
+Proof.
+  unfold validate_http, http_refs. intro H.
+  assert (inj : forall n, In n (h_path h ++ h_query h ++ h_headers h ++ h_cookies h) -> ~ resolves (RPayload m n) ->
+            exists r, In r (map (RPayload m) (h_path h ++ h_query h ++ h_headers h ++ h_cookies h) ++
+                            map (RBody m) (body_names (h_body h) ++ match h_mapparams h with Some (Some n) => [n] | _ => [] end) ++
+                            flat_map (fun rs => map (RResult m) (rs_headers rs ++ rs_cookies rs) ++ map (RResultBody m) (body_names (rs_body rs)) ++
+                                                match rs_tag rs with Some t => [RTag m t] | None => [] end) (h_responses h) ++
+                            flat_map (fun er => RError [m_errors m; s_errors s; d_errors d] (er_name er) ::
+                                                map (RErrAttr [m_errors m; s_errors s; d_errors d] (er_name er)) (er_headers er)) (h_errors h)) /\ ~ resolves r).
+  { intros n Hn Hr. exists (RPayload m n). split; [apply in_or_app; left; apply in_map; exact Hn|exact Hr]. }
+  apply in_app_or in H. destruct H as [H|H].
+  { (* ENoPayload *)
+    destruct (m_payload m) as [|attrs| |] eqn:Ep; try contradiction.
+    destruct (h_path h ++ h_query h ++ h_headers h) as [|n0 r0] eqn:El; [contradiction|].
+    apply (inj n0).
+    - rewrite !app_assoc. apply in_or_app. left. rewrite <- !app_assoc. rewrite El. left. reflexivity.
+    - simpl. rewrite Ep. tauto. }
+  apply in_app_or in H. destruct H as [H|H].
+  { apply in_map_iff in H. destruct H as [n [_ Hn]]. destruct (missing_dangling m _ n Hn) as [Hi Hr].
+    apply (inj n); [apply in_or_app; left; exact Hi|exact Hr]. }
+  apply in_app_or in H. destruct H as [H|H].
+  { apply in_map_iff in H. destruct H as [n [_ Hn]]. destruct (missing_dangling m _ n Hn) as [Hi Hr].
+    apply (inj n); [apply in_or_app; right; apply in_or_app; left; exact Hi|exact Hr]. }
+  apply in_app_or in H. destruct H as [H|H].
+  { apply in_map_iff in H. destruct H as [n [_ Hn]]. destruct (missing_dangling m _ n Hn) as [Hi Hr].
+    apply (inj n); [apply in_or_app; right; apply in_or_app; right; apply in_or_app; left; exact Hi|exact Hr]. }
+  apply in_app_or in H. destruct H as [H|H].
+  { apply in_map_iff in H. destruct H as [n [_ Hn]]. destruct (missing_dangling m _ n Hn) as [Hi Hr].
+    apply (inj n); [apply in_or_app; right; apply in_or_app; right; apply in_or_app; right; exact Hi|exact Hr]. }
+  apply in_app_or in H. destruct H as [H|H].
+  { (* body attribute names *)
+    destruct (h_body h) as [|bn|bns|] eqn:Eb; try contradiction.
+    destruct (m_payload m) as [|attrs| |] eqn:Ep; simpl in H; try contradiction.
+    apply in_map_iff in H. destruct H as [n [_ Hn]]. apply filter_In in Hn. destruct Hn as [Hn Hf].
+    exists (RBody m n). split.
+    - apply in_or_app. right. apply in_or_app. left. apply in_map. apply in_or_app. left. simpl. exact Hn.
+    - simpl. rewrite Ep. intro Hr. apply mem_In in Hr. apply negb_true_iff in Hf. simpl in Hf. congruence. }
+  apply in_app_or in H. destruct H as [H|H].
+  { destruct (h_mapparams h) as [[mp|]|] eqn:Emp; try contradiction.
+    destruct (m_payload m) as [|attrs| |] eqn:Ep; simpl in H; try contradiction.
+    destruct (mem mp attrs) eqn:Em; [contradiction|].
+    exists (RBody m mp). split.
+    - apply in_or_app. right. apply in_or_app. left. apply in_map. apply in_or_app. right. left. reflexivity.
+    - simpl. rewrite Ep. intro Hr. apply mem_In in Hr. congruence. }
+  apply in_app_or in H. destruct H as [H|H].
+  { apply in_flat_map in H. destruct H as [rs [Hrs He]]. destruct (response_dangling m rs e He) as [r [Hr Hn]].
+    exists r. split; [|exact Hn]. apply in_or_app. right. apply in_or_app. right. apply in_or_app. left.
+    apply in_flat_map. exists rs. split; [exact Hrs|]. rewrite app_assoc. apply in_or_app. left. exact Hr. }
+  apply in_app_or in H. destruct H as [H|H].
+  { destruct (tags_dangling m h e H) as [t [Ht Hn]]. exists (RTag m t). split; [|exact Hn].
+    apply in_or_app. right. apply in_or_app. right. apply in_or_app. left.
+    unfold tags_of in Ht. apply in_flat_map in Ht. destruct Ht as [rs [Hrs Ht]].
+    apply in_flat_map. exists rs. split; [exact Hrs|]. apply in_or_app. right. apply in_or_app. right.
+    destruct (rs_tag rs); [|contradiction]. destruct Ht as [<-|[]]. left. reflexivity. }
+  apply in_flat_map in H. destruct H as [er [Her He]]. destruct (eresponse_dangling _ er e He) as [r [Hr Hn]].
+  exists r. split; [|exact Hn]. apply in_or_app. right. apply in_or_app. right. apply in_or_app. right.
+  apply in_flat_map. exists er. split; [exact Her|exact Hr].
+Qed.
+
+Lemma http_refs_iff d s m h : dsl_errors_http m h = [] ->
+  (validate_http d s m h = [] <-> forall r, In r (http_refs d s m h) -> resolves r).
+Proof.
+  intro Hd. split.
+  - intros Hv r Hin. exact (http_ok d s m h Hd Hv r Hin).
+  - intro Hall. destruct (validate_http d s m h) as [|e l] eqn:E; [reflexivity|].
+    destruct (http_errors_dangling d s m h e) as [r [Hin Hn]]; [rewrite E; left; reflexivity|].
+    exfalso. exact (Hn (Hall r Hin)).
 Qed.
